@@ -26,8 +26,13 @@ ALL = [(i, j, k) for i in range(5) for j in range(5) for k in range(5)]
 
 @st.composite
 def origin(draw, cents):
-    mode = draw(st.integers(0, 3))
+    mode = draw(st.integers(0, 4))
     base = cents[draw(st.integers(0, len(cents) - 1))]
+    if mode == 4:  # almost on a centre
+        o = list(base)
+        ax = draw(st.integers(0, 2))
+        o[ax] = o[ax] + draw(st.sampled_from([1e-10, 1e-8, 1e-7, 1e-6, 1e-5, 1e-4, -1e-6]))
+        return o, "near-centre"
     if mode == 0:
         return list(base), "on-centre"
     if mode == 1:
@@ -79,7 +84,7 @@ def judge(case):
     got = lib(moment_integral, bas, C, orders)
     lmax = max(s["l"] for s in shells)
     unsorted = n >= 3 and [tuple(o) for o in orders] != sorted(tuple(o) for o in orders)
-    v.nontrivial = bool((lmax >= 2 and orders.max() >= 2) or unsorted or case.get("ocls") in ("off-centre", "far"))
+    v.nontrivial = bool((lmax >= 2 and orders.max() >= 2) or unsorted or case.get("ocls") in ("off-centre", "far", "near-centre"))
     if unsorted:
         v.classes.append("unsorted-list")
     if len({tuple(o) for o in orders}) < n:
